@@ -1,26 +1,23 @@
 #!/bin/bash
 # confirm a seeded change in its scratch worktree: suite passes with change, demo fails with change, demo passes without
-# usage: confirm_seed.sh C01
+# usage: confirm_seed.sh C01 [suffix]      (worktree /tmp/wt/C01<suffix>, output /tmp/seedout/C01<suffix>)
 id=$1
-wt=/tmp/wt/$id
-out=/tmp/seedout/$id
+wt=/tmp/wt/$id$2
+out=/tmp/seedout/$id$2
 export GOFLAGS=-mod=mod GOPROXY=off GOSUMDB=off GOTOOLCHAIN=local
 cd $wt || exit 2
-git checkout -q -- . ; git clean -fdq
-git apply $out/patch.diff || { echo "$id: patch does not apply"; exit 2; }
-# 1 suite with change (no demo)
-go build ./... || { echo "$id: does not build"; exit 2; }
-s1=$(go test -vet=off -count=1 ./... 2>&1 | grep -c "^FAIL")
-# locate demo destination from agent's worktree copy name: search NOTES for zz_seed_test.go path
-demo=$(ls $out/demo_test.go 2>/dev/null)
-dest=$(grep -o "[a-z/]*zz_seed_test.go" $out/NOTES.md | grep -v "^/" | head -1)
-[ -z "$dest" ] && dest=$(grep -o "/tmp/wt/$id/[a-z/]*zz_seed_test.go" $out/NOTES.md | head -1 | sed "s#/tmp/wt/$id/##")
+# where did the agent leave its demo? (untracked *_test.go in the worktree)
+dest=$(git status --porcelain | grep '^??' | awk '{print $2}' | grep '_test.go$' | head -1)
 [ -z "$dest" ] && dest=zz_seed_test.go
-cp $demo $wt/$dest
+git checkout -q -- . ; git clean -fdq
+git apply $out/patch.diff || { echo "$id$2: patch does not apply"; exit 2; }
+go build ./... || { echo "$id$2: does not build"; exit 2; }
+s1=$(go test -vet=off -count=1 ./... 2>&1 | grep -c "^FAIL")
+cp $out/demo_test.go $wt/$dest
 pkg=./$(dirname $dest)
-d1=$(go test -vet=off -count=1 -run 'TestSeed' $pkg 2>&1 | grep -c "^FAIL\|^--- FAIL")
+d1=$(go test -vet=off -count=1 -run 'Seed' $pkg 2>&1 | grep -c "^FAIL\|^--- FAIL")
 git apply -R $out/patch.diff
-d2=$(go test -vet=off -count=1 -run 'TestSeed' $pkg 2>&1 | grep -c "^FAIL\|^--- FAIL")
-okrun=$(go test -vet=off -count=1 -run 'TestSeed' -v $pkg 2>&1 | grep -c "^--- PASS")
+d2=$(go test -vet=off -count=1 -run 'Seed' $pkg 2>&1 | grep -c "^FAIL\|^--- FAIL")
+okrun=$(go test -vet=off -count=1 -run 'Seed' -v $pkg 2>&1 | grep -c "^--- PASS")
 rm -f $wt/$dest
-echo "$id: dest=$dest suite_with_change_failures=$s1 demo_with_change_failures=$d1 demo_without_change_failures=$d2 demo_without_change_passes=$okrun"
+echo "$id$2: dest=$dest suite_with_change_failures=$s1 demo_with_change_failures=$d1 demo_without_change_failures=$d2 demo_without_change_passes=$okrun"
